@@ -293,6 +293,54 @@ func (r *caseRun) opAppendBad() {
 	r.c.Branch("corrupt-entry")
 }
 
+// opGetFail = one replica loop iteration whose GetMessage fails for the next entry (an unreadable,
+// i.e. corrupt, one): partition.replica calls replicator.IgnoreMessage(seq) and NOT Replica, so the
+// family's sequence must stay and the group ack may move only if the entry is exactly ack+1.
+func (r *caseRun) opGetFail() {
+	e, ok := r.nextEntry()
+	if !ok || !e.Bad {
+		return
+	}
+	before := r.n.pos()
+	if !r.guard("getfail", func() error { return r.n.applyGetFail(e) }) {
+		return
+	}
+	after := r.n.pos()
+	if after.hasSeq != before.hasSeq || after.seq != before.seq {
+		r.c.Branch("getfail-family-sequence-moved")
+	}
+	if after.ack > before.ack {
+		r.c.Branch("getfail-acknowledged")
+	}
+	r.c.Op(r.lop("getfail"), r.P())
+	// the consumer group's meta page and the manifest are durable as they are: this instant is a crash
+	// point. The acknowledged position must not cover an entry with rows above the stored sequence.
+	for _, x := range r.entries {
+		if x.ldr() == r.cur && !x.Bad && x.Seq <= after.ack && (!after.hasStored || x.Seq > after.stored) {
+			r.c.Fail(keyAckGtStored, fmt.Sprintf("after GetMessage failed for entry %d (partition.replica -> IgnoreMessage): leader %d's consumer group ack %d covers entry %d, but the sequence stored with the data is %s",
+				e.Seq, r.cur, after.ack, x.Seq, optStr(after.stored, after.hasStored)))
+			break
+		}
+	}
+	r.c.Branch("getmessage-fails-ignore-only")
+}
+
+// opAppendNoRows appends a log entry that decompresses but yields no rows (kind 1: an empty block,
+// Replica returns at rowsLen == 0; kind 2: UnmarshalRows panics, partition.replica recovers). In both
+// Replica's deferred function commits the sequence and does NOT call IgnoreMessage.
+func (r *caseRun) opAppendNoRows(kind int) {
+	if r.n.part == nil {
+		return
+	}
+	e := entry{Seq: r.laneLen(), Bad: true, Empty: kind, Leader: r.cur, Slot: int64(len(r.entries))}
+	if !r.guard("append", func() error { return r.n.appendEntry(e) }) {
+		return
+	}
+	r.entries = append(r.entries, e)
+	r.c.Op(r.lop("appendbad"), r.P())
+	r.c.Branch([]string{"", "empty-block-entry", "unmarshal-panic-entry"}[kind])
+}
+
 func (r *caseRun) opAppend(m, t int) {
 	if r.n.part == nil {
 		return
@@ -478,6 +526,9 @@ func (r *caseRun) opApplyInj(inj int) {
 	if !ok {
 		return
 	}
+	if e.Empty != 0 {
+		inj = injNone // WriteRows is not reached: one op, the model event applyNoRows
+	}
 	before := r.n.pos()
 	h := r.n.hooks
 	valid := false
@@ -590,7 +641,15 @@ func (r *caseRun) opApplyInj(inj int) {
 	} else {
 		r.c.Branch("apply-rejected")
 	}
-	if !fine {
+	if !fine && e.Empty != 0 {
+		r.c.Op(r.lop("norows"), r.P())
+		r.c.Branch("replica-no-rows-commit-only")
+		after := r.n.pos()
+		if after.ack != before.ack {
+			// the property does not forbid it (the entry has no rows), the model does not do it: shows as a disagreement
+			r.c.Branch("norows-acknowledged")
+		}
+	} else if !fine {
 		r.c.Op(r.lop("apply"), r.P())
 	} else if !valid {
 		// rejected: Replica returned right after ValidateSequence; the remaining steps are no-ops
@@ -1796,6 +1855,21 @@ func (r *caseRun) applyAll() {
 	}
 }
 
+// applyAllGetFail drains the current log; unreadable entries fail at GetMessage (IgnoreMessage only).
+func (r *caseRun) applyAllGetFail() {
+	for r.n != nil && !r.broken && r.n.pending() {
+		if e, ok := r.nextEntry(); ok && e.Bad {
+			c0 := r.n.cg.ConsumedSeq()
+			r.opGetFail()
+			if r.n == nil || r.n.cg == nil || r.n.cg.ConsumedSeq() == c0 {
+				return
+			}
+			continue
+		}
+		r.opApply()
+	}
+}
+
 // applyAllLanes drains every leader's log.
 func (r *caseRun) applyAllLanes() {
 	old := r.cur
@@ -1884,6 +1958,87 @@ func (r *caseRun) corruptAfterUnflushed() {
 	r.opFlushData(noCrash, false)
 	r.opAppendBad()
 	r.opApply()
+	r.opCrash()
+}
+
+// getFailAfterUnflushed: entries 0..1 flushed, 2..3 applied but not flushed, entry 4 unreadable at
+// GetMessage (partition.replica's error branch: IgnoreMessage only), crash: the acknowledged position
+// must not have moved past 2..3 and the family's sequence must not have moved at all; after the
+// restart 2..3 are replayed. Then an unreadable entry right behind a fully flushed log (acknowledged
+// without a flush, family sequence stays BELOW the ack), a valid entry behind it, flush, crash.
+func (r *caseRun) getFailAfterUnflushed() {
+	r.opAppend(0, 0)
+	r.opApply()
+	r.opAppend(1, 1)
+	r.opApply()
+	r.opFlushMeta()
+	r.opFlushIndex()
+	r.opFlushData(noCrash, false)
+	r.opAppend(0, 1)
+	r.opApply()
+	r.opAppend(1, 0)
+	r.opApply()
+	r.opAppendBad()
+	r.opGetFail()
+	r.opCrash()
+	if r.stop() {
+		return
+	}
+	// after the restart: 2, 3 replayed, the unreadable entry fails again (family sequence 3, ack 1)
+	r.opApply()
+	r.opApply()
+	r.opGetFail()
+	r.opFlushMeta()
+	r.opFlushIndex()
+	r.opFlushData(noCrash, false)
+	// fully flushed log (stored 3, ack 3, consumed 4): the next unreadable entry IS acknowledged
+	r.opAppendBad()
+	r.opGetFail()
+	r.opAppend(0, 0)
+	r.opApply()
+	r.opCrash()
+	if r.stop() {
+		return
+	}
+	r.applyAll()
+	r.opFlushMeta()
+	r.opFlushIndex()
+	r.opFlushData(noCrash, false)
+	r.opCrash()
+}
+
+// noRowsEntries: entries that decompress but yield no rows (empty block, unmarshal panic) between valid
+// ones: Replica commits their sequence without acknowledging anything; crash before and after a flush.
+func (r *caseRun) noRowsEntries() {
+	r.opAppend(0, 0)
+	r.opApply()
+	r.opAppendNoRows(1)
+	r.opApply()
+	r.opAppendNoRows(2)
+	r.opApply()
+	r.opCrash()
+	if r.stop() {
+		return
+	}
+	r.applyAll()
+	r.opFlushMeta()
+	r.opFlushIndex()
+	r.opFlushData(noCrash, false)
+	// behind a fully flushed log: the family's sequence moves past the stored one, the ack stays
+	r.opAppendNoRows(2)
+	r.opApply()
+	r.opAppendNoRows(1)
+	r.opGetFail()
+	r.opAppend(1, 1)
+	r.opApply()
+	r.opCrash()
+	if r.stop() {
+		return
+	}
+	r.applyAll()
+	r.opFlushMeta()
+	r.opFlushIndex()
+	r.opFlushData(noCrash, false)
 	r.opCrash()
 }
 
@@ -2309,9 +2464,17 @@ func (r *caseRun) randomCase(disciplined bool) {
 		switch k := rng.Intn(100); {
 		case k < 4:
 			// a log entry that does not decompress
-			r.opAppendBad()
-			if rng.Intn(3) != 0 {
+			if kind := len(r.entries) % 3; kind == 0 {
+				r.opAppendBad()
+			} else {
+				r.opAppendNoRows(kind)
+			}
+			switch rng.Intn(3) {
+			case 1:
 				r.applyAll()
+			case 2:
+				// the unreadable entry fails one level earlier: GetMessage error in partition.replica
+				r.applyAllGetFail()
 			}
 		case k < 40:
 			m, t := pick()
@@ -2488,7 +2651,7 @@ func (r *caseRun) randomCase(disciplined bool) {
 // ---------------------------------------------------------------- Run
 
 // lastScripted: cases 0..lastScripted are fixed histories
-const lastScripted = 31
+const lastScripted = 33
 
 func (area) Run(c *core.Ctx) error {
 	repo := os.Getenv("VERIF_REPO")
@@ -2593,6 +2756,12 @@ func (area) Run(c *core.Ctx) error {
 				c.Branch("crash-at-manifest-record-scripted")
 				x := [][3]int{{innerData, 0, 0}, {innerData, 0, 1}, {innerMeta, 0, 1}, {innerMeta, 1, 0}, {innerIndex, 0, 1}, {innerIndex, 2, 0}}[i-26]
 				r.crashAtManifestRecord(x[0], x[1], x[2] == 1)
+			case i == 33:
+				c.Branch("no-rows-entries")
+				r.noRowsEntries()
+			case i == 32:
+				c.Branch("getmessage-fails-after-unflushed")
+				r.getFailAfterUnflushed()
 			case i%4 == 3:
 				c.Branch("wild")
 				r.randomCase(false)
